@@ -117,6 +117,24 @@ def _build_set(spec):
         # the first caption starts at the very beginning of the programme, the next ones follow closely
         spec = spec[1:]
         t, step = 0, 1600000
+    if spec and spec[0] == "@split":
+        # every line is given as two adjacent text nodes (cut in the middle), and the caption ends with a line that has a
+        # layout of its own
+        from pycaption.geometry import Layout, Point, Size, UnitEnum
+
+        spec = spec[1:]
+        here = Layout(origin=Point(Size(10, UnitEnum.PERCENT), Size(10, UnitEnum.PERCENT)))
+        other = Layout(origin=Point(Size(20, UnitEnum.PERCENT), Size(70, UnitEnum.PERCENT)))
+        for k, lines in enumerate(spec):
+            nodes = []
+            for i, ln in enumerate(lines):
+                if i:
+                    nodes.append(CaptionNode.create_break())
+                cut = ln.index("-->") + 2 if "-->" in ln else len(ln) // 2
+                nodes += [CaptionNode.create_text(ln[:cut], layout_info=here), CaptionNode.create_text(ln[cut:], layout_info=here)] if 0 < cut < len(ln) else [CaptionNode.create_text(ln, layout_info=here)]
+            nodes += [CaptionNode.create_break(layout_info=other), CaptionNode.create_text("elsewhere", layout_info=other)]
+            caps.append(Caption(t + k * step, t + k * step + 1500000, nodes))
+        return CaptionSet({"en-US": caps})
     if spec and spec[0] == "@0short":
         # the first caption lies entirely inside the first 40 ms of the programme, the others follow as usual
         spec = spec[1:]
@@ -243,6 +261,8 @@ def writer_specs(tier):
         specs.append(["@force", [t], ["second"]])
         specs.append(["@0short", [t], ["second"]])
     specs.append(["@0short", ["23.976"], ["second"]])
+    for t in ("x --> y", "a -- b", "Hello there", "1 --> 2 --> 3"):
+        specs.append(["@split", [t], ["two", t]])
     # captions of one to nine rows
     for n in range(3, 10):
         specs.append([[f"row {k:02d} of a tall caption" for k in range(n)]])
